@@ -25,7 +25,7 @@ pub struct C14Case {
     pub runs: Vec<SolveOpts>,
 }
 
-pub const FAMILIES: &[(&str, u64)] = &[("tiny-soft", 3), ("tiny-hints-soft", 3), ("conf-soft", 3), ("lazy-soft", 4), ("hostile", 2), ("medium-soft", 2), ("many-soft", 1), ("many-soft-hints", 1)];
+pub const FAMILIES: &[(&str, u64)] = &[("tiny-soft", 3), ("tiny-hints-soft", 3), ("conf-soft", 3), ("lazy-soft", 4), ("hostile", 2), ("medium-soft", 2), ("many-soft", 1), ("many-soft-hints", 1), ("many-cand-soft", 1), ("many-cand-soft-hints", 1)];
 
 fn permutations(v: &[u32]) -> Vec<Vec<u32>> {
     if v.len() <= 1 {
